@@ -132,12 +132,21 @@ def produce(work, binary, tier, seed):
         part = work.path("trace%d.ndjson" % i)
         log(run_driver(binary, ["-cases", cases, "-trace", part, "-seed", seed + 1000 * i]).strip())
         parts.append(part)
-    if tier != "quick":
-        far, nfar = generate(work, seed, net="any", name="farcases.ndjson")
-        ngen += nfar
-        part = work.path("trace-far.ndjson")
-        run_overlay(work, binary, far, part, seed)
-        parts.append(part)
+    # peers no loopback connection can have (public addresses, zone-qualified link-local ones): executed
+    # in-package with a chosen RemoteAddr; the quick tier takes a seeded sample of them
+    far, nfar = generate(work, seed, net="any", name="farcases.ndjson")
+    if tier == "quick":
+        import random
+        lines_far = open(far).read().splitlines()
+        random.Random(seed).shuffle(lines_far)
+        lines_far = lines_far[:1500]
+        far = work.path("farcases-sample.ndjson")
+        open(far, "w").write("\n".join(lines_far) + "\n")
+        nfar = len(lines_far)
+    ngen += nfar
+    part = work.path("trace-far.ndjson")
+    run_overlay(work, binary, far, part, seed)
+    parts.append(part)
     n = 0
     with open(trace, "w") as f:
         for k, p in enumerate(parts):
